@@ -562,6 +562,14 @@ func (w *agWorld) build(sp base.StagePoint, sfs []base.BallotSignFact, majority 
 	}
 }
 
+func otherStageOf(sp base.StagePoint) base.StagePoint {
+	if sp.Stage() == base.StageINIT {
+		return base.NewStagePoint(sp.Point, base.StageACCEPT)
+	}
+
+	return base.NewStagePoint(sp.Point, base.StageINIT)
+}
+
 // ---- the assembler ----
 
 // assemble draws candidate voteproofs for one stage point from the history.
@@ -604,6 +612,20 @@ func (w *agWorld) assemble(sp base.StagePoint, ck string, k int) {
 		}
 
 		var spice []string
+
+		if osp := otherStageOf(sp); r.Chance(1, 10) {
+			// made entirely of the votes of the other stage of this height and round: majority and sign facts agree with
+			// each other and have the numbers, only their stage is not the voteproof's
+			ock := classKey(osp, nil)
+
+			if ofhs := sortedKeys(w.sfs[ock]); len(ofhs) > 0 {
+				ofh := ofhs[r.Choose(len(ofhs))]
+				M = w.facts[ofh]
+				sfs = append([]base.BallotSignFact(nil), w.sfs[ock][ofh]...)
+				spice = append(spice, "majority and votes of the other stage of this point")
+				r.Probe("candidate_made_of_other_stage")
+			}
+		}
 
 		if r.Chance(1, 12) && len(sfs) > 0 {
 			sfs = append(sfs, sfs[r.Choose(len(sfs))])
@@ -922,6 +944,16 @@ func c03Run(r *simkit.Run) {
 	sp := base.NewStagePoint(base.NewPoint(w.H, base.Round(r.Choose(2))), stage)
 
 	w.scenario(sp)
+
+	if r.Flag("other_stage_voted") {
+		// the other stage of the same height and round has votes too (a height passes through both)
+		Z := w.newFact(otherStageOf(sp), nil)
+
+		for _, nd := range w.c.Nodes {
+			w.sign(nd.Address(), nd.Privatekey(), Z)
+		}
+	}
+
 	w.checkPrecondition()
 	w.assemble(sp, classKey(sp, nil), k)
 }
@@ -932,7 +964,7 @@ func init() {
 		Run:         c03Run,
 		Real:        []string{"isaac voteproof types and constructors", "Voteproof.IsValid", "isaac.IsValidVoteproofWithSuffrage / base.IsValidVoteproofWithSuffrage", "isaac.NewSuffrageWithExpels", "isaac.IsValidExpelWithSuffrage", "isaacstates.Ballotbox (one per honest node)", "isaac.SuffrageVoting on isaacdatabase.TempPool (memory leveldb)", "isaacstates.DefaultBallotStuckResolver with FindMissingBallotsFromBallotboxFunc and VoteSuffrageVotingFunc", "secp256k1 signatures"},
 		Stub:        []string{"network (partition groups, loss, delay, duplication, heal; missing-ballot requests answered from what a peer has seen)", "consensus handler (the harness signs each honest node's single ballot per stage point and the next-round INIT ballot with the expels SuffrageVoting.Find returns)", "equivocating nodes (harness)"},
-		Rule:        "each run draws a suffrage of 1-7 nodes, a threshold in {67,67.5,70,75,80,90,100}, at most f=floor(n-n*t/100) equivocators. Half of the runs simulate one height: every honest node runs a real Ballotbox, SuffrageVoting and stuck resolver over a network with 1-3 partition groups, loss, delay, duplication and optional heal; equivocators send different facts to different groups and co-sign every expel. The other half builds a history directly (honest nodes sign one of four facts, with or without listed expels). In both, an assembler then builds 30 (thorough 120) candidate voteproofs from the sign facts of the history and expel operations signed by any nodes, including ill-formed ones (duplicate, foreign and wrong-key voters, votes of other points, expired expels, foreign expel signers and targets, too few signers). Every voteproof that passes Voteproof.IsValid and IsValidVoteproofWithSuffrage enters the pool; any two of one stage point with different majority facts are a violation. distinct = event-log hash",
+		Rule:        "each run draws a suffrage of 1-7 nodes, a threshold in {67,67.5,70,75,80,90,100}, at most f=floor(n-n*t/100) equivocators. Half of the runs simulate one height: every honest node runs a real Ballotbox, SuffrageVoting and stuck resolver over a network with 1-3 partition groups, loss, delay, duplication and optional heal; equivocators send different facts to different groups and co-sign every expel. The other half builds a history directly (honest nodes sign one of four facts, with or without listed expels). In both, an assembler then builds 30 (thorough 120) candidate voteproofs from the sign facts of the history and expel operations signed by any nodes, including ill-formed ones (duplicate, foreign and wrong-key voters, votes of other points, majority and votes taken wholly from the other stage of the same height and round, expired expels, foreign expel signers and targets, too few signers). Every voteproof that passes Voteproof.IsValid and IsValidVoteproofWithSuffrage enters the pool; any two of one stage point with different majority facts are a violation. distinct = event-log hash",
 		Assumptions: []string{"honest nodes sign one ballot fact per stage point and class (plain / suffrage-confirm); any suffrage node may sign any expel", "signature verification of sign facts and expel operations is a trusted primitive of the rule classifier"},
 	})
 }
